@@ -16,7 +16,8 @@ EXPLANATION = (
     "flagged on every run."
 )
 
-HOST_PREFIXES = ("errno.", "signal.", "socket.", "platform.", "locale.", "resource.", "termios.", "fcntl.", "stat.")
+HOST_PREFIXES = ("errno.", "signal.", "socket.", "platform.", "locale.", "resource.", "termios.", "fcntl.", "stat.", "select.",
+                 "mmap.", "pwd.", "grp.", "tty.", "posix.", "nt.")
 HOST_EXACT = {"os.strerror", "os.name", "os.uname", "os.sep", "os.linesep", "sys.platform", "sys.byteorder",
               "os.errno", "errno", "signal", "socket", "platform", "locale"}
 # host independent helpers of those modules (pure functions of their argument)
@@ -25,6 +26,17 @@ PURE = {"socket.inet_ntoa", "socket.inet_ntop", "socket.inet_aton", "socket.inet
 
 SCOPE_MODULES = ("trace_handlers.", "traces_parser", "callstacks_parser", "pykdebugparser", "os_log_event",
                  "kd_buf_parser", "kevent", "trace_codes", "__main__")
+
+
+def _os_constant(dn: str) -> bool:
+    """os.SEEK_HOLE, os.O_CREAT, os.EX_OK, time.timezone ...: numeric constants / settings of the host platform."""
+    mod, _, attr = dn.partition(".")
+    if mod == "os" and attr and "." not in attr and attr.upper() == attr and attr[0].isalpha():
+        return True
+    if dn in ("time.timezone", "time.altzone", "time.tzname", "time.daylight", "os.environ", "os.getuid", "os.getpid",
+              "os.cpu_count", "sys.maxsize", "sys.getfilesystemencoding", "sys.getdefaultencoding"):
+        return True
+    return False
 
 
 def _annotation_nodes(tree) -> set:
@@ -65,7 +77,7 @@ def scan_module(repo: Repo, mod: ModuleInfo):
                     continue
                 # local names shadowing: a bare Name that is not an import/alias resolves to None or module-local
                 if dn and not dn.startswith("pykdebugparser.") and dn not in PURE and \
-                        (dn in HOST_EXACT or dn.startswith(HOST_PREFIXES)):
+                        (dn in HOST_EXACT or dn.startswith(HOST_PREFIXES) or _os_constant(dn)):
                     if isinstance(child, ast.Name) and child.id not in mod.imports:
                         pass
                     else:
